@@ -186,11 +186,15 @@ def k1_empty_and_garbage(ctx):
         data = inputs[which]
     else:
         data = open(os.path.join(RES, FIXTURE[others[which - len(inputs)]]), "rb").read()
-        cut = ctx.choice("truncate", 3)
+        cut = ctx.choice("truncate", 5)
         if cut == 1:
             data = data[:len(data) // 2]
         elif cut == 2:
             data = data[:64]
+        elif cut == 3:
+            data = data[:-100]                  # container tail damaged
+        elif cut == 4:
+            data = data + b"\x00stray" * 20     # stray bytes after the container
     box = {}
 
     def run():
@@ -199,9 +203,14 @@ def k1_empty_and_garbage(ctx):
         except Exception as e:
             if not isinstance(e, E.ExtractionError):
                 raise
-    res = _run_forked(run, 20)
+    res = _run_forked(run, 20, capture_stdout=True)
     if res == "timeout":
         ctx.fail("extractor-did-not-terminate", extractor=name, input=which)
+        return
+    if res.startswith("stdout:"):
+        # the CLI prints the result (or nothing) itself: an extractor that writes to the process's standard
+        # output corrupts both forms of the CLI contract
+        ctx.fail("extractor-wrote-to-stdout", extractor=name, input=which, written=res[7:])
         return
     ctx.require(res == "ok", "non-extraction-error-escaped", extractor=name, input=which, raised=res)
 
@@ -242,7 +251,7 @@ class _StepBound:
         return False
 
 
-def _run_forked(fn, limit):
+def _run_forked(fn, limit, capture_stdout=False):
     """run fn() in a forked child under a hard wall-clock limit (the child is killed when it does
     not finish): 'ok', 'timeout' or 'raised:<ExceptionName>'.  Used for native (concrete) runs that
     may not terminate - immune to whatever keeps in-process watchdogs from firing."""
@@ -253,11 +262,32 @@ def _run_forked(fn, limit):
     if pid == 0:
         os.close(r)
         try:
+            tf = None
+            if capture_stdout:
+                # whatever reaches the process's standard output (file descriptor 1) during the run - through
+                # sys.stdout, a stream object bound earlier, or a C library - lands in this file
+                import tempfile
+                tf = tempfile.TemporaryFile()
+                try:
+                    sys.stdout.flush()
+                except Exception:
+                    pass
+                os.dup2(tf.fileno(), 1)
             try:
                 fn()
                 msg = b"ok"
             except BaseException as e:      # noqa - child only reports
                 msg = ("raised:" + type(e).__name__).encode()
+            if tf is not None:
+                for stream in (sys.stdout, sys.__stdout__):
+                    try:
+                        stream.flush()
+                    except Exception:
+                        pass
+                size = os.fstat(tf.fileno()).st_size
+                if size and msg == b"ok" or size and msg.startswith(b"raised:Extraction"):
+                    tf.seek(0)
+                    msg = b"stdout:" + tf.read(60).replace(b"\n", b" ")
             os.write(w, msg)
         finally:
             os._exit(0)
@@ -290,6 +320,9 @@ RTF_ALPHABET = "\\{}'u*0a z-\n;"
 
 def _rtf_text(ctx, n):
     t = ctx.fresh_chars("text", n, 1, 126)
+    first = ctx.params.get("first")
+    if first is not None:
+        ctx.assume(t[0] == RTF_ALPHABET[first])
     if ctx.concrete:
         ctx.assume(all(ch in RTF_ALPHABET for ch in t))
     else:
@@ -380,6 +413,32 @@ def k2_termination(ctx):
         shadows = dict(struct=S.SymStructMod, int=S.IntShadow, _RECORD_HEADER=S.SymStructFmt(m._RECORD_HEADER.format),
                        len=len)
         mod = m
+    elif which == "doc_png":
+        # the PNG chunk walk of the legacy DOC image scanner: signature + n symbolic bytes
+        import struct as _struct
+        from sharepoint2text.parsing.extractors.ms_legacy import doc_extractor as m
+        sig = b"\x89PNG\r\n\x1a\n"
+        tail = ctx.fresh_bytes("data", n)
+        data = (sig + bytes(tail)) if ctx.concrete else S.SymBytes(list(sig) + list(tail))
+
+        class _Digest:
+            k = [0]
+
+            def hexdigest(self):
+                _Digest.k[0] += 1
+                return "digest%d" % _Digest.k[0]
+
+        class _Hashlib:
+            sha1 = staticmethod(lambda b: _Digest())
+            md5 = staticmethod(lambda b: _Digest())
+            sha256 = staticmethod(lambda b: _Digest())
+        target = lambda: m._DocReader._extract_png_images_from_bytes(data)
+        shadows = dict(struct=S.SymStructMod, int=S.IntShadow, len=len, hashlib=_Hashlib)
+        # module-level struct.Struct objects are stood in by their symbolic counterparts, whatever their names
+        for nm, v in vars(m).items():
+            if isinstance(v, _struct.Struct):
+                shadows[nm] = S.SymStructFmt(v.format)
+        mod = m
     elif which == "xls_filepass":
         from sharepoint2text.parsing.extractors.util import encryption as m
         data = ctx.fresh_bytes("data", n)
@@ -453,10 +512,16 @@ def _k2_parts(tier):
     parts = []
     top = 5 if tier == "quick" else 6
     for f in ("rtf_full", "rtf_ignorable"):
-        parts += [{"fn": f, "len": n} for n in range(1, top + 1)]
-    for n in ((8, 12, 16, 20) if tier == "quick" else (8, 12, 16, 20, 24, 32)):
+        parts += [{"fn": f, "len": n} for n in range(1, min(top, 5) + 1)]
+        if top >= 6:
+            # length 6 partitioned by the first character (one part per alphabet letter)
+            parts += [{"fn": f, "len": 6, "first": k} for k in range(len(RTF_ALPHABET))]
+    for n in ((8, 12, 16, 20) if tier == "quick" else (8, 12, 16, 20, 24, 28)):
         parts.append({"fn": "ppt_records", "len": n})
+    for n in ((8, 12, 16, 20) if tier == "quick" else (8, 12, 16, 20, 24, 32)):
         parts.append({"fn": "xls_filepass", "len": n})
+    for n in ((12, 16, 24) if tier == "quick" else (12, 16, 24, 28, 32)):
+        parts.append({"fn": "doc_png", "len": n})
     return parts
 
 
@@ -592,10 +657,10 @@ KERNELS = [
                __import__("sharepoint2text.parsing.extractors.ms_legacy.rtf_extractor", fromlist=["x"])._RtfParser._remove_ignorable_groups,
                __import__("sharepoint2text.parsing.extractors.ms_legacy.ppt_extractor", fromlist=["x"])._iter_records,
                __import__("sharepoint2text.parsing.extractors.util.encryption", fromlist=["x"]).is_xls_encrypted],
-           parts=_k2_parts, perturb=[("expect_timeout", {"fn": "rtf_ignorable", "len": 2})], max_depth=160,
+           parts=_k2_parts, perturb=[("expect_timeout", {"fn": "rtf_ignorable", "len": 2})], max_depth=400,
            symbolic=["every character of the RTF text (from the RTF lexeme alphabet) / every byte of the record stream"],
-           assumptions=["more than 160 solver decisions or 40000 executed lines on one path of an input of <= 6 characters / 32 bytes stands for non-termination; a hit is replayed on the real function in a child process under a 5 s hard wall-clock limit"],
-           outside=["inputs longer than the bound (RTF 5/6 characters, record streams 20/32 bytes)",
+           assumptions=["more than 400 solver decisions or 40000 executed lines on one path of an input of <= 6 characters / 32 bytes stands for non-termination; a hit is replayed on the real function in a child process under a 5 s hard wall-clock limit"],
+           outside=["inputs longer than the bound (RTF 5/6 characters, record streams 20 / 28-32 bytes)",
                     "time spent inside a single C-level call (super-linear regular expressions on whole inputs "
                     "terminate and execute no repository lines: seed C01-c is not detected)",
                     "loops driven by third-party iterators (pypdf, SharePoint paging)"],
